@@ -8,3 +8,16 @@ V2 = U.make_vtype('V2', ['x'], module=__name__)
 class Color(enum.Enum):
     RED = 1
     GREEN = 2
+
+
+# Twins of the scheduler-universe types: same qualified name, same fields, another module, another run() (C06: a load
+# must never return what was stored for a different task).
+def _run_twin(self):
+    return ('TWIN', self.label)
+
+
+TWINS = {}
+for _t in U.SCHED_TYPES:
+    _cache = _t._lt.cache
+    TWINS[_t.__qualname__] = U.make_type(_t.__qualname__, cache=(None if type(_cache).__name__ == 'NullCache' else (U.JsonCache() if isinstance(_cache, U.JsonCache) else 'default')),
+                                         max_parallel=_t._lt.max_parallel, module=__name__, run=_run_twin)
